@@ -247,10 +247,14 @@ var noSleepSets = os.Getenv("VERIF_NO_SLEEP") != ""
 var outcomeStrings = map[string]int{}
 var showOutcomes = os.Getenv("VERIF_SHOW_OUTCOMES") != ""
 
+// outcomeText: hash -> text of the outcomes seen (debugging aid, VERIF_SHOW_OUTCOMES)
+var outcomeText = map[string]string{}
+
 func outcomeOf(x *Exec) string {
 	s := outcomeOf0(x)
 	if showOutcomes {
 		outcomeStrings[s]++
+		outcomeText[shortHash(s)] = s + " ## schedule " + fmt.Sprint(x.Sched.Choices)
 	}
 	return s
 }
@@ -261,7 +265,8 @@ func outcomeOf0(x *Exec) string {
 		if c.Ret < 0 {
 			fmt.Fprintf(&sb, "t%d:%s=>(blocked);", c.Thread, strings.Join(c.Args, " "))
 		} else {
-			fmt.Fprintf(&sb, "t%d:%s=>%s;", c.Thread, strings.Join(c.Args, " "), vm.Canon(c.Reply))
+			// replies whose text depends on the iteration order of a Go map (CLIENT LIST) are opaque here too
+			fmt.Fprintf(&sb, "t%d:%s=>%s;", c.Thread, strings.Join(c.Args, " "), linCanon(c.Args, c.Reply))
 		}
 	}
 	sb.WriteString("|" + x.Final)
@@ -841,7 +846,8 @@ func runExplore(propID, group string, scenarios []*Scenario, bound int, tier str
 func selfTestReduction(group string, scenarios []*Scenario, sel func(*Scenario) bool, secs int, rep *Report) {
 	var cand []*Scenario
 	for _, sc := range scenarios {
-		if sel == nil || sel(sc) {
+		// scenarios whose executions depend on the iteration order of a Go map are not comparable run to run
+		if (sel == nil || sel(sc)) && !sc.MapOrder {
 			cand = append(cand, sc)
 		}
 	}
